@@ -97,7 +97,7 @@ RULE_M3 = ('M3: Born rule and collapse structure of measure_quantum_vector: (a) 
            'summed over the unmeasured groups (`reduce_dim`), never over the kept ones; (b) the outcome is drawn with `p=prob`; (c) the helper '
            'classifies the measured qubits as the kept groups (kind 1 at `index`, keep_dim = groups of kind 1, reduce_dim = kind 0); (d) the '
            'post-measurement state copies exactly the selected slice of the input (same index object on both sides, zeros elsewhere) and divides it '
-           'by sqrt(prob[outcome]) of the SAME sampled outcome.')
+           'by sqrt(prob[outcome]) of the SAME sampled outcome; (f) every exit returns that collapsed buffer, none returns the input state.')
 
 
 def m3(proj, rep):
@@ -206,6 +206,23 @@ def m3(proj, rep):
             rep.violation('M3', f'{f.qual}[decode]', f'`{t(ur)}`: a slice of the grouped shape is not the sizes of the kept groups at their positions', m, ur)
         else:
             rep.undecided('M3', f'{f.qual}[decode]', f'decode sizes `{ta[:50]}` not recognised', m, ur)
+            n -= 1
+    # (f) every exit hands out the collapsed buffer, never the input itself
+    col = next((s for s in ast.walk(f.node) if isinstance(s, ast.Assign) and isinstance(s.targets[0], ast.Subscript) and isinstance(s.value, ast.BinOp)
+                and isinstance(s.value.op, ast.Div)), None)
+    buf = col.targets[0].value.id if col is not None and isinstance(col.targets[0].value, ast.Name) else None
+    first_param = f.all_params[0]
+    for r in [x for x in ast.walk(f.node) if isinstance(x, ast.Return) and isinstance(x.value, ast.Tuple) and len(x.value.elts) >= 3]:
+        n += 1
+        st = x = r.value.elts[2]
+        names = {y.id for y in ast.walk(st) if isinstance(y, ast.Name)}
+        if buf is not None and buf in names:
+            rep.ok('M3', f'{f.qual}[exit]', f'`{t(r)[:50]}` returns the collapsed buffer `{buf}`', m, r)
+        elif first_param in names or 'q1' in names:
+            rep.violation('M3', f'{f.qual}[exit]', f'`{t(r)[:60]}` returns the input state itself instead of its projection: amplitudes of the other outcomes (up to the tolerance of '
+                          f'whatever test selected this exit) survive, so the state is neither projected nor normalised', m, r)
+        else:
+            rep.undecided('M3', f'{f.qual}[exit]', f'`{t(r)[:60]}`: returned state not recognised', m, r)
             n -= 1
     rep.count('M3.obligations', n)
     return n
